@@ -351,7 +351,10 @@ def check_csrf_origin(
 
     # Parse our origin so we we can extract the required information from
     # it.
-    originp = urlparse(origin)
+    try:
+        originp = urlparse(origin)
+    except ValueError:
+        return _fail("Origin could not be parsed.")
 
     # Ensure that our Referer is also secure.
     if originp.scheme != "https":
